@@ -7,6 +7,12 @@
 (* Code state is ONE record c (so that the steps can be written as plain   *)
 (* operators and composed):                                                *)
 (*   emitted   events the handler has taken from ntfnSource.Notifications()*)
+(*             (events are numbered 1,2,.. in emission order = their id)   *)
+(*   chain     the source's chain: chain[i] = id of the Connected event    *)
+(*             of the block now at height i.  A Connected event extends    *)
+(*             it, a Disconnected event (EmitD) removes its last block.    *)
+(*             NotificationsSinceHeight(h) answers the Connected events of *)
+(*             the blocks at heights h+1..tip of the chain as it is THEN.  *)
 (*   quit      m.quit is closed (Stop was called)                          *)
 (*   hpc       handler goroutine: "run" (at its select), "wait" (inside    *)
 (*             handleCancelSubscription -> sub.cancel(), waiting for the   *)
@@ -53,7 +59,8 @@
 (***************************************************************************)
 EXTENDS Integers, Sequences, FiniteSets, TLC, Json, BlockNtfnsProps
 
-CONSTANTS NSubs, MaxEvents, Cap, Scale, Eager, FixQuitGap
+CONSTANTS NSubs, MaxEvents, Cap, Scale, Eager, FixQuitGap,
+          Reorg   \* the source may also emit Disconnected events (re-organisations)
 
 VARIABLES c, abs, act, viol
 
@@ -122,7 +129,11 @@ Settle(x) ==
 
 ----------------------------------------------------------------------------
 \* Client-visible steps.
-Heights(x) == {Scale * i : i \in 0..((x.emitted \div Scale) + 1)}
+Heights(x) == {Scale * i : i \in 0..((Len(x.chain) \div Scale) + 1)}
+
+\* What the source answers to NotificationsSinceHeight(h) (nothing for h = 0).
+BacklogOf(x, h) == IF h = 0 \/ h >= Len(x.chain) THEN <<>>
+                   ELSE SubSeq(x.chain, h + 1, Len(x.chain))
 
 \* All subsequences of a sequence (which backlog entries survive when
 \* notifySubscriber races with a closed m.quit).
@@ -135,9 +146,9 @@ SubscribeEn(x, s) == x.cst[s] = 0 /\ ~x.quiesced /\ (x.hpc = "run" \/ x.quit)
 
 \* res, and for res = "ok" the backlog entries that reached the queue.
 SubscribeChoices(x, h) ==
-  LET bl == Backlog(h, x.emitted)
-  IN  (IF x.hpc = "run" /\ h > x.emitted THEN {<<"err", <<>>>>} ELSE {})
-      \cup (IF x.hpc = "run" /\ h <= x.emitted
+  LET bl == BacklogOf(x, h)
+  IN  (IF x.hpc = "run" /\ h > Len(x.chain) THEN {<<"err", <<>>>>} ELSE {})
+      \cup (IF x.hpc = "run" /\ h <= Len(x.chain)
             THEN (IF x.quit /\ ~FixQuitGap THEN {<<"ok", q>> : q \in SubSeqs(bl)}
                   ELSE {<<"ok", bl>>})
             ELSE {})
@@ -150,8 +161,13 @@ SubscribeF(x, s, ch) ==
 
 EmitEn(x) == x.hpc = "run" /\ x.emitted < MaxEvents * Scale /\ ~x.quiesced
 EmitTargets(x) == IF x.quit THEN SUBSET x.regd ELSE {x.regd}
-EmitF(x, D) ==
+\* kind "C": Scale Connected events extending the chain; kind "D": Scale
+\* Disconnected events removing its last Scale blocks.
+EmitDEn(x) == Reorg /\ EmitEn(x) /\ Len(x.chain) >= Scale
+EmitF(x, D, kind) ==
   [x EXCEPT !.emitted = @ + Scale,
+            !.chain = IF kind = "C" THEN @ \o Range(x.emitted + 1, x.emitted + Scale)
+                      ELSE SubSeq(@, 1, Len(@) - Scale),
             !.queue = [s \in Subs |-> IF s \in D
                                       THEN x.queue[s] \o Range(x.emitted + 1, x.emitted + Scale)
                                       ELSE x.queue[s]],
@@ -194,9 +210,9 @@ QuiesceF(x, mask) ==
                 !.seen  = [s \in Subs |-> IF dr(s) THEN x.chclosed[s] ELSE x.seen[s]]]
 
 ----------------------------------------------------------------------------
-Act2(op, s, h, s2, h2, k, res) ==
-  [op |-> op, s |-> s, h |-> h, s2 |-> s2, h2 |-> h2, k |-> k, res |-> res]
-Act(op, s, h, k, res) == Act2(op, s, h, 0, 0, k, res)
+Act3(op, s, h, bl, s2, h2, bl2, k, res) ==
+  [op |-> op, s |-> s, h |-> h, bl |-> bl, s2 |-> s2, h2 |-> h2, bl2 |-> bl2, k |-> k, res |-> res]
+Act(op, s, h, k, res) == Act3(op, s, h, <<>>, 0, 0, <<>>, k, res)
 
 Done(x) == IF Eager THEN Settle(x) ELSE x
 
@@ -210,22 +226,29 @@ Subscribe(s) ==
   /\ SubscribeEn(c, s)
   /\ \E h \in Heights(c) : \E chc \in SubscribeChoices(c, h) :
        Finish(Done(SubscribeF(c, s, chc)),
-              Act("Subscribe", s, h, IF c.hpc = "run" THEN c.emitted ELSE -1, chc[1]))
+              Act3("Subscribe", s, h, IF chc[1] = "ok" THEN BacklogOf(c, h) ELSE <<>>, 0, 0, <<>>,
+                   IF c.hpc = "run" THEN c.emitted ELSE -1, chc[1]))
 
 \* Two NewSubscription calls in flight at the same time: both clients are past
 \* the assignment of their subscription id (manager.go:204) before the
 \* handler has finished registering either; the handler serves s1, then s2.
 Subscribe2(s1, s2) ==
   /\ s1 # s2 /\ SubscribeEn(c, s1) /\ SubscribeEn(c, s2) /\ c.hpc = "run" /\ ~c.quit
-  /\ \E h1, h2 \in {h \in Heights(c) : h <= c.emitted} :
-       LET x1 == SubscribeF(c, s1, <<"ok", Backlog(h1, c.emitted)>>)
-           x2 == SubscribeF(x1, s2, <<"ok", Backlog(h2, c.emitted)>>)
-       IN  Finish(Done(x2), Act2("Subscribe2", s1, h1, s2, h2, c.emitted, "ok"))
+  /\ \E h1, h2 \in {h \in Heights(c) : h <= Len(c.chain)} :
+       LET x1 == SubscribeF(c, s1, <<"ok", BacklogOf(c, h1)>>)
+           x2 == SubscribeF(x1, s2, <<"ok", BacklogOf(c, h2)>>)
+       IN  Finish(Done(x2), Act3("Subscribe2", s1, h1, BacklogOf(c, h1), s2, h2, BacklogOf(c, h2),
+                                 c.emitted, "ok"))
 
 Emit ==
   /\ EmitEn(c)
   /\ \E D \in EmitTargets(c) :
-       Finish(Done(EmitF(c, D)), Act("Emit", 0, 0, c.emitted + Scale, "ok"))
+       Finish(Done(EmitF(c, D, "C")), Act("Emit", 0, 0, c.emitted + Scale, "ok"))
+
+EmitD ==
+  /\ EmitDEn(c)
+  /\ \E D \in EmitTargets(c) :
+       Finish(Done(EmitF(c, D, "D")), Act("EmitD", 0, 0, c.emitted + Scale, "ok"))
 
 Cancel(s) ==
   /\ CancelEn(c, s)
@@ -259,7 +282,7 @@ Internal ==
      \/ StopRetEn(c) /\ Finish(StopRet(c), Act("Stop", 0, 0, 0, "ok"))
 
 Init ==
-  /\ c = [emitted |-> 0, quit |-> FALSE, hpc |-> "run", hwait |-> 0, stopst |-> 0,
+  /\ c = [emitted |-> 0, chain |-> <<>>, quit |-> FALSE, hpc |-> "run", hwait |-> 0, stopst |-> 0,
           regd |-> {}, quiesced |-> FALSE,
           cst |-> [s \in Subs |-> 0],
           queue |-> [s \in Subs |-> <<>>], fwd |-> [s \in Subs |-> -2],
@@ -274,6 +297,7 @@ Next ==
   \/ \E s \in Subs : Subscribe(s)
   \/ \E s1, s2 \in Subs : Subscribe2(s1, s2)
   \/ Emit
+  \/ EmitD
   \/ \E s \in Subs : Cancel(s)
   \/ \E s \in Subs : Read(s)
   \/ Stop
